@@ -260,16 +260,20 @@ def lij_scaling(cfg, large):
             def e(nm):
                 return 2 * np.log(float(v.get('y_' + nm, 1.0)))
             args = [np.array([e('%s%d' % (nm, k)) for k in range(n)]) for nm, n in shapes]
-            lam = float(v.get('y_lam', 1.0)) ** 2
-            args2 = args[:3] + [a - np.log(lam) for a in args[3:]]
             inputs = {}
             large_arg = 1e-300 if large else 1e300
-            L1 = calc.Lij(*args, large_om2=large_arg)
-            L2 = calc.Lij(*args2, large_om2=large_arg)
 
             def eq(a, b):
                 sc = max(np.abs(np.asarray(b, dtype=float)).max(), 1e-300)
                 return bool(np.abs(np.asarray(a, dtype=float) - np.asarray(b, dtype=float)).max() <= 1e-7 * sc)
+            L1 = calc.Lij(*args, large_om2=large_arg)
+            # the obligation is for every lambda: the model's value first, then a few others at the same energies (a violation at
+            # any of them is a violation of the same obligation; the lambda used is part of the reported detail)
+            for lam in (float(v.get('y_lam', 1.0)) ** 2, 1e4, 1e8, 1e13, 1e-4):
+                args2 = args[:3] + [a - np.log(lam) for a in args[3:]]
+                L2 = calc.Lij(*args2, large_om2=large_arg)
+                if not all(eq(L2[n], L1[n] * lam) for n in range(4)):
+                    break
         info = {'inputs': inputs, 'replayer': 'lij', 'extra': {'cfg': cfg, 'large': large}}
         obs = []
         for n, nm in enumerate(('L0vv', 'Lss', 'Lsv', 'L1vv')):
